@@ -201,7 +201,9 @@ def ctx_digest(ctx) -> str:
 
 
 def _filter2(self, context):
-    """per-parameter subset"""
+    """per-parameter subset; for the tasks named in LV_EMPTY_CTX the parameter selects nothing at all"""
+    if str(self.tid) in os.environ.get('LV_EMPTY_CTX', '').split(','):
+        return {}
     return {k: v for k, v in context.items() if k in ('epoch', 'failnow', f'k{self.tid}')}
 
 
